@@ -63,6 +63,80 @@ class Val:
         self.k = k
 
 
+class FVal(Val):
+    """a result that is falsy but not None (``__bool__``)"""
+
+    def __bool__(self):
+        return False
+
+
+class LVal(Val):
+    """a result that is falsy but not None (an empty container: ``__len__`` is 0)"""
+
+    def __len__(self):
+        return 0
+
+
+class FalsyV(RC.V):
+    """a registered value that is falsy"""
+    __slots__ = ()
+
+    def __bool__(self):
+        return False
+
+
+class ZeroV(RC.V):
+    """a factory whose non-None results are the falsy 0"""
+    __slots__ = ()
+
+    def __call__(self, *objs):
+        r = RC.V.__call__(self, *objs)
+        return None if r is None else 0
+
+
+class HookedSpecBase(Declaration):
+    """required specifications that run application code while a lookup uses them"""
+    hook = None
+
+    def fire(self):
+        h, self.hook = self.hook, None
+        if h is not None:
+            h()
+
+
+class SubscribeSpec(HookedSpecBase):
+    def subscribe(self, dependent):
+        Declaration.subscribe(self, dependent)
+        self.fire()
+
+
+class WeakrefSpec(HookedSpecBase):
+    def weakref(self, callback=None):
+        self.fire()
+        return Declaration.weakref(self, callback)
+
+
+class SroSpec(HookedSpecBase):
+    armed = False
+
+    @property
+    def __sro__(self):
+        if self.armed:
+            self.fire()
+        return self.__dict__["_sro"]
+
+    @__sro__.setter
+    def __sro__(self, v):
+        self.__dict__["_sro"] = v
+
+
+class Provider:
+    """an object that says itself what it provides"""
+
+    def __init__(self, spec):
+        self.__providedBy__ = spec
+
+
 class Named:
     """a foreign comparand with __name__ / __module__"""
 
@@ -149,9 +223,28 @@ class World(RC.World):
         self.keep = []
 
     def val(self, k):
+        """result values: 100..199 falsy through __bool__, 200..299 falsy through __len__,
+        300 -> 0, 301 -> '', 302 -> (); anything else an ordinary object"""
+        if k == 300:
+            return 0
+        if k == 301:
+            return ""
+        if k == 302:
+            return ()
         if k not in self.vals:
-            self.vals[k] = Val(k)
+            self.vals[k] = FVal(k) if 100 <= k < 200 else LVal(k) if 200 <= k < 300 else Val(k)
         return self.vals[k]
+
+    def value(self, v):
+        """registered values (see reg_common.World.value): vid 4 is a factory whose results are the
+        falsy 0, vid 5 is itself falsy"""
+        if v is None:
+            return None
+        key = (v[0], v[1])
+        if key not in self.values:
+            cls = ZeroV if v[0] == 4 else FalsyV if v[0] == 5 else RC.V
+            self.values[key] = cls(v[0], v[1], self)
+        return self.values[key]
 
     # ---- extra interfaces: names / modules for comparison, custom __adapt__ chains
     def make_xiface(self, k, x):
@@ -186,6 +279,8 @@ class World(RC.World):
                 src += ["        return custom_adapt(self, obj)"]
         if x.get("other"):
             src += ["    @interfacemethod", "    def extra_method(self):", "        return 1"]
+        if x.get("provby"):
+            src += ["    @interfacemethod", "    def providedBy(self, obj):", "        return True"]
         ns = {"bases": bases, "module": x["module"], "interfacemethod": interfacemethod,
               "custom_adapt": custom_adapt, "log": log}
         exec("\n".join(src) + "\n", ns)
@@ -230,6 +325,10 @@ class World(RC.World):
         ns = {"__module__": "verif.odd"}
         if d.get("slots"):
             ns["__slots__"] = ()
+        if d.get("falsy") == "bool":
+            ns["__bool__"] = lambda self: False
+        elif d.get("falsy") == "len":
+            ns["__len__"] = lambda self: 0
         for attr, a in (d.get("cattr") or {}).items():
             ns[attr] = raiser(a[1]) if a[0] == "raise" else self.value_of(a[1])
         c = d.get("conform")
@@ -486,6 +585,15 @@ class Interp:
             return C(getattr(ob, name))
         if k == "bare":
             return self.bare(op, n)
+        if k == "reent":
+            return self.reent(op)
+        if k == "m_kw":
+            # a specification method called with its argument by keyword
+            meth, spec, arg = op[1], w.ref(op[2]), w.ref(op[3])
+            kw = {"isOrExtends": "interface", "providedBy": "ob", "implementedBy": "cls", "extends": "interface"}[meth]
+            return C(getattr(spec, meth)(**{kw: arg}))
+        if k == "icsub":
+            return self.icsub(op)
         if k == "descr_get":
             # a direct two-argument call of the descriptor's __get__ (what inspect-like code does):
             # ["descr_get", "osd", inst | None, cls | None]
@@ -536,6 +644,8 @@ class Interp:
             try:
                 if k == "adapt":
                     r = iface.__adapt__(ob)
+                elif op[3] == "falsy":
+                    r = iface(ob, w.val(150))
                 elif op[3]:
                     r = iface(ob, self.dflt)
                 else:
@@ -618,6 +728,100 @@ class Interp:
             Rows.sb_extends(self, n, sp, iface)
             return [attempt(lambda: sp.isOrExtends(iface)), attempt(lambda: sp(iface))]
         raise RuntimeError(what)
+
+    def reent(self, op):
+        """a lookup during which the registry is mutated by the required specification, then the
+        identical lookup again (twice, the second time with a default):
+        ["reent", trigger, entry, r, [iface spec ids], provided ref, name, mutation, arity2]
+           trigger  = "subscribe" | "weakref" | "sro"   what the lookup does to the specification
+           entry    = lookup | lookup1 | queryAdapter | adapter_hook | queryMultiAdapter | lookupAll |
+                      names | subscriptions | subscribers
+           mutation = an op of reg_common.run_op (register / unregister / subscribe / unsubscribe /
+                      setregbases / rebuild) or ["changed", r]"""
+        w = self.w
+        trigger, entry, r, bases, prov, name, mut, arity2 = op[1:9]
+        reg = w.regs[r]
+        fired = []
+
+        def hook():
+            fired.append("fired")
+            try:
+                if mut[0] == "changed":
+                    w.regs[mut[1]].changed(None)
+                else:
+                    RC.run_op(w, mut)
+            except Exception as e:
+                fired.append(tok_exc(e))
+        cls = {"subscribe": SubscribeSpec, "weakref": WeakrefSpec, "sro": SroSpec}[trigger]
+        spec = cls(*[w.specs[b] for b in bases])
+        spec.hook = hook
+        if trigger == "sro":
+            spec.armed = True
+        ob = Provider(spec)
+        w.keep.append((spec, ob))
+        provided = w.ref(prov)
+        other = w.specs[bases[0]] if bases else Interface
+        req = (spec, other) if arity2 else (spec,)
+        obs = [ob, w.objects[0]] if arity2 else [ob]
+
+        def call(with_default):
+            d = (self.dflt,) if with_default else ()
+            if entry == "lookup":
+                return reg.lookup(req, provided, name, *d)
+            if entry == "lookup1":
+                return reg.lookup1(spec, provided, name, *d)
+            if entry == "queryAdapter":
+                return reg.queryAdapter(ob, provided, name, *d)
+            if entry == "adapter_hook":
+                return reg.adapter_hook(provided, ob, name, *d)
+            if entry == "queryMultiAdapter":
+                return reg.queryMultiAdapter(obs, provided, name, *d)
+            if entry == "lookupAll":
+                return sorted([[w.canon(a), w.canon(b)] for a, b in reg.lookupAll(req, provided)], key=repr)
+            if entry == "names":
+                return sorted(reg.names(req, provided))
+            if entry == "subscriptions":
+                return list(reg.subscriptions(req, provided))
+            if entry == "subscribers":
+                return list(reg.subscribers(obs, provided))
+            raise RuntimeError(entry)
+        outs = []
+        for with_default in (False, False, True):
+            try:
+                x = call(with_default)
+                outs.append("default" if x is self.dflt else w.canon(x))
+            except Exception as e:
+                outs.append(tok_exc(e))
+        return [outs, fired]
+
+    def icsub(self, op):
+        """interfaces whose *class* is a plain subclass of InterfaceClass:
+        ["icsub", what, object ref, with alternate]   what = adapt | adapt_sub | providedBy"""
+        w = self.w
+        what, ob, alt = op[1], w.ref(op[2]), op[3]
+        v = w.val(61)
+
+        class AdaptIC(InterfaceClass):
+            def __adapt__(self, obj):
+                return v
+
+        class AdaptSubIC(AdaptIC):
+            pass
+
+        class ProvidedIC(InterfaceClass):
+            def providedBy(self, obj):
+                return True
+        cls = {"adapt": AdaptIC, "adapt_sub": AdaptSubIC, "providedBy": ProvidedIC}[what]
+        iface = cls("ICSub", (Interface,), {}, __module__="verif.icsub")
+        outs = []
+        for f in ((lambda: iface(ob, self.dflt)) if alt else (lambda: iface(ob)), lambda: iface.__adapt__(ob),
+                  lambda: iface.providedBy(ob)):
+            try:
+                x = f()
+                outs.append("default" if x is self.dflt else w.canon(x))
+            except Exception as e:
+                outs.append(tok_exc(e))
+        return outs
 
     def make_hook(self, h):
         w = self.w
